@@ -2,58 +2,30 @@
 // Solver counter-example(s) produced by Kani's concrete playback; replay with
 //   ./check C01 --replay /verif/replay/cases/c01__q__rank9_n9_len513.rs
 
-// failed check (assertion): assertion failed: r.rank(p) == exp
+// failed check (assertion): assertion failed: r.rank_zero(p) == p - exp
 #[test]
-fn kani_concrete_playback_rank9_n9_len513_16751656209249948448() {
+fn kani_concrete_playback_rank9_n9_len513_8636515430396681602() {
     let concrete_vals: Vec<Vec<u8>> = vec![
-        // 9223372036854775807ul
-        vec![255, 255, 255, 255, 255, 255, 255, 127],
-        // 18446744073709551615ul
-        vec![255, 255, 255, 255, 255, 255, 255, 255],
-        // 17870089807357542399ul
-        vec![255, 255, 223, 255, 255, 79, 255, 247],
-        // 18446744073709551613ul
-        vec![253, 255, 255, 255, 255, 255, 255, 255],
-        // 17865552118576844548ul
-        vec![4, 15, 0, 0, 255, 48, 239, 247],
-        // 18446744073709549567ul
-        vec![255, 247, 255, 255, 255, 255, 255, 255],
-        // 18375020735501434879ul
-        vec![255, 255, 255, 255, 0, 48, 1, 255],
-        // 18970971209729ul
-        vec![1, 0, 0, 6, 65, 17, 0, 0],
-        // 1657610535912341504ul
-        vec![0, 0, 0, 1, 0, 4, 1, 23],
-        // 18446744073709551566ul
-        vec![206, 255, 255, 255, 255, 255, 255, 255],
-    ];
-    kani::concrete_playback_run(concrete_vals, crate::c01::q::rank9_n9_len513);
-}
-
-// failed check (assertion): assertion failed: r.num_ones() == total
-#[test]
-fn kani_concrete_playback_rank9_n9_len513_18203534939628711316() {
-    let concrete_vals: Vec<Vec<u8>> = vec![
-        // 18446744073709551615ul
-        vec![255, 255, 255, 255, 255, 255, 255, 255],
-        // 18446744073709551615ul
-        vec![255, 255, 255, 255, 255, 255, 255, 255],
-        // 18446744073709551615ul
-        vec![255, 255, 255, 255, 255, 255, 255, 255],
-        // 18446744073709551615ul
-        vec![255, 255, 255, 255, 255, 255, 255, 255],
-        // 18446744073709551615ul
-        vec![255, 255, 255, 255, 255, 255, 255, 255],
-        // 18446744073709551615ul
-        vec![255, 255, 255, 255, 255, 255, 255, 255],
-        // 18446744073709551615ul
-        vec![255, 255, 255, 255, 255, 255, 255, 255],
-        // 18446744073709551615ul
-        vec![255, 255, 255, 255, 255, 255, 255, 255],
-        // 18446744073709551615ul
-        vec![255, 255, 255, 255, 255, 255, 255, 255],
-        // 512ul
-        vec![0, 2, 0, 0, 0, 0, 0, 0],
+        // 0ul
+        vec![0, 0, 0, 0, 0, 0, 0, 0],
+        // 0ul
+        vec![0, 0, 0, 0, 0, 0, 0, 0],
+        // 0ul
+        vec![0, 0, 0, 0, 0, 0, 0, 0],
+        // 0ul
+        vec![0, 0, 0, 0, 0, 0, 0, 0],
+        // 0ul
+        vec![0, 0, 0, 0, 0, 0, 0, 0],
+        // 0ul
+        vec![0, 0, 0, 0, 0, 0, 0, 0],
+        // 0ul
+        vec![0, 0, 0, 0, 0, 0, 0, 0],
+        // 0ul
+        vec![0, 0, 0, 0, 0, 0, 0, 0],
+        // 0ul
+        vec![0, 0, 0, 0, 0, 0, 0, 0],
+        // 9223372036854775808ul
+        vec![0, 0, 0, 0, 0, 0, 0, 128],
     ];
     kani::concrete_playback_run(concrete_vals, crate::c01::q::rank9_n9_len513);
 }
